@@ -1,0 +1,8 @@
+//go:build !verif
+
+// Package verifhook provides named delay/fault points for runtime
+// verification. Without the "verif" build tag At does nothing.
+package verifhook
+
+// At does nothing without the verif build tag
+func At(name string) {}
